@@ -1,9 +1,9 @@
 SPECIFICATION Spec
 CONSTANTS
-  Files <- MCFiles
+  Files <- MCFiles3
   Barrier = TRUE
   SortList = TRUE
-  OpenInside = TRUE
+  OpenInside = FALSE
 INVARIANT MatchesRule
 INVARIANT ExitZero
 INVARIANT JunkInvariant
